@@ -22,7 +22,7 @@ import (
 
 func (dec *Decoder) stringToUUID(value string) uuid.UUID {
 	uuid, err := uuid.Parse(value)
-	if err != nil {
+	if err != nil && dec.Error == nil {
 		dec.Error = err
 	}
 	return uuid
@@ -35,7 +35,7 @@ func (dec *Decoder) bytesToUUID(value []byte) (id uuid.UUID) {
 	}
 	var err error
 	id, err = uuid.ParseBytes(value)
-	if err != nil {
+	if err != nil && dec.Error == nil {
 		dec.Error = err
 	}
 	return
@@ -45,7 +45,7 @@ func (dec *Decoder) bytesToUUID(value []byte) (id uuid.UUID) {
 func (dec *Decoder) ReadUUID() uuid.UUID {
 	uuid, err := uuid.ParseBytes(dec.UnsafeNext(38))
 	dec.AddReference(uuid)
-	if err != nil {
+	if err != nil && dec.Error == nil {
 		dec.Error = err
 	}
 	return uuid
